@@ -234,6 +234,14 @@ def hand_programs(rng, n):
     return progs
 
 
+def scale_programs(rng, n, consts, tier):
+    """Deep / big live structures (tools/c09_family.py, scale family): chains nested deeper than any bound on the
+    marker's recursion (but below the ~75000 at which the unchanged marker overflows the C stack: known finding),
+    arrays and strings bigger than the fixed-size limit, a page, 64 KB, 1 MB."""
+    kinds = ["chain-first", "chain-middle", "array-mid" if tier == "quick" else "array", "strings", "chain", "array"]
+    return [F.scale_program(kinds[i % len(kinds)], rng.randrange(1 << 40), consts) for i in range(n)]
+
+
 ALLOC_FEATURES = ("int-arith", "int-div", "string-op", "recursion", "for", "while", "call", "convert")
 
 
@@ -375,6 +383,15 @@ def prepare(tools, p, d, want_interp=True):
             p["natural"].append((rt, "natural:fault", "the unforced compiled program ends in a fault (rc %s, %r); expected "
                                  "output %r" % (b["rc"], (b["out"] + b["err"])[-200:], p["expect_out"][:80])))
             continue
+        if rt == "exe" and not agrees(p, b) and p["family"] in ("hand", "scale", "corpus") and p["expect_out"] is not None \
+                and not p.get("opt") and "interp-nogc" in runs and agrees(p, runs["interp-nogc"]):
+            # hand-written / scale / corpus programs at default options are calibrated: every route prints the oracle's
+            # text on the unchanged tree (not so with -Qkillp, which miscompiles the `pretend' idiom of the tree domain).  The compiled program has no collector-off switch, so a wrong unforced result that the
+            # interpreter with its collector off does not share is put down to the natural collections.
+            c = classify(b, dict(b, out=p["expect_out"].encode(), rc=0)) or ("output", "")
+            p["natural"].append((rt, "natural:" + c[0], "the unforced compiled program differs from the expected output, which "
+                                 "the interpreter with its collector off (-Wno-gc) prints: " + c[1]))
+            continue
         if not agrees(p, b):
             p["dropped"][rt] = "unforced run disagrees with the oracle / faults (matter of C01/C03, not of collection)"
             continue
@@ -402,7 +419,9 @@ def calibrate(tools, p):
     lib = p.get("lib", "aldor")
     est = {}
     fails = []
-    for rt, k in (("exe", 100), ("interp-ao", 150), ("interp-as", 2000)):
+    big = p["family"] == "scale" or p.get("scale")        # big heaps: one collection costs 5-20 ms
+    for rt, k in ((("exe", 997), ("interp-ao", 4999), ("interp-as", 16381)) if big else
+                  (("exe", 100), ("interp-ao", 150), ("interp-as", 2000))):
         if rt not in p["base"]:
             continue
         t0 = p["base"][rt]["wall"]
@@ -623,7 +642,19 @@ def make_jobs(progs, tier, rng):
         c = est_cost(p, rt, k)
         for j in js:
             jobs.append({"p": p, "route": rt, "k": k, "j": j, "cost": c, "prio": prio, "too_slow": c > cap})
+    ks_scale = [997, 4999, 16381] if quick else [499, 997, 2003, 4999, 9973, 16381]
     for p in usable:
+        if p["family"] == "scale" or p.get("scale"):
+            # every k is below the smallest structure (20000 cells / slots; the junk phases allocate as much again),
+            # so at least one collection falls while the whole structure is alive and before it is verified
+            for k in ks_scale:
+                if "exe" in p["est"]:
+                    add(p, "exe", k, js_for(rng, k, 0, 2 if quick else 4), 0, cap_exe)
+                if "interp-ao" in p["est"] and (k >= 4999 or not quick):
+                    add(p, "interp-ao", k, js_for(rng, k, 0, 1 if quick else 2), 0, cap_int)
+                if "interp-as" in p["est"] and k >= (16381 if quick else 4999):
+                    add(p, "interp-as", k, js_for(rng, k, 0, 1), 0 if quick else 1, cap_int)
+            continue
         hand = p["family"] in ("hand", "corpus")
         # quick tier: the full small-k enumeration goes to the corpus and to the one-shape-per-program part of the
         # hand family (every shape present whatever the seed); the other programs get one offset per k
@@ -675,7 +706,9 @@ def run(rep, tier):
     # ---- programs: corpus of past failures first, then the three families
     corpus = load_corpus()
     n_hand, n_mini, n_repo = (14, 6, 4) if quick else (60, 40, 40)
-    progs = corpus + hand_programs(rng, n_hand) + (mini_programs(rng, n_mini, tier) if mini_ok else []) + \
+    consts = F.store_constants(C.SRC)
+    scale = scale_programs(rng, 4 if quick else 24, consts, tier)
+    progs = corpus + scale + hand_programs(rng, n_hand) + (mini_programs(rng, n_mini, tier) if mini_ok else []) + \
         repo_programs(rng, n_repo)
     t_gen = time.time() - t_start
 
@@ -690,6 +723,9 @@ def run(rep, tier):
         prepare(tools, p, "%s/p%03d" % (base, i))
         if p.get("skip"):
             return p, p.get("natural", []), []
+        if p.get("natural_only"):          # known finding about the natural schedule: judged by its unforced runs only
+            p["est"] = {}
+            return p, p["natural"], []
         return p, p["natural"], calibrate(tools, p)
     with concurrent.futures.ThreadPoolExecutor(C.NCPU) as ex:
         for p, nat, cal in ex.map(prep, enumerate(progs)):
@@ -708,7 +744,8 @@ def run(rep, tier):
     jobs = []
     for p in corpus:
         if not p.get("skip") and p.get("route") in p["base"]:
-            jobs.append({"p": p, "route": p["route"], "k": p["k"], "j": p["j"], "cost": 0, "prio": -1, "too_slow": False})
+            if not p.get("natural_only"):
+                jobs.append({"p": p, "route": p["route"], "k": p["k"], "j": p["j"], "cost": 0, "prio": -1, "too_slow": False})
     jobs += make_jobs(progs, tier, rng)
     too_slow = [j for j in jobs if j["too_slow"]]
     jobs = [j for j in jobs if not j["too_slow"]]
@@ -778,6 +815,8 @@ def run(rep, tier):
                          for p in usable[:12]],
                 input_distribution={
                     "programs_usable": len(usable), "by_family": dict(fam), "shapes(programs containing)": dict(shapes),
+                    "scale_family": [{"name": p["name"], **p.get("params", {})} for p in usable if p["family"] == "scale"][:24],
+                    "store.c_bounds_read": consts.get("bounds"),
                     "optimisation_options": dict(collections.Counter(" ".join(p.get("opt", [])) or "default" for p in usable)),
                     "programs_skipped": len(skipped), "skipped_reasons": skipped[:12],
                     "routes_dropped(no usable reference run)": sum(len(p.get("dropped", {})) for p in usable),
@@ -835,7 +874,8 @@ def load_corpus():
                             "expect_out": o.get("expect_out"),
                             "expect_status": o.get("expect_status", "ok" if o.get("expect_out") is not None else None),
                             "route": o.get("route", "exe"), "k": int(o.get("k", 1)), "j": int(o.get("j", 0)),
-                            "key": o.get("key")})
+                            "key": o.get("key"), "fault_key": o.get("fault_key"), "scale": bool(o.get("scale")),
+                            "natural_only": bool(o.get("natural_only"))})
     return out
 
 
@@ -926,6 +966,29 @@ def shrink_mini(tools, p, route, sched, base, budget_s):
     return tuple(best)
 
 
+def shrink_scale(tools, p, route, sched, base, budget_s, consts):
+    """Halve the structure while it still fails (same kind, same seed)."""
+    t0 = time.time()
+    best = (p, sched)
+    n = p["params"].get("n") or p["params"].get("m")
+    while n and n > 64 and time.time() - t0 < budget_s:
+        n //= 2
+        q = F.scale_program(p["kind"], p["sseed"], consts, size=n)
+        prepare(tools, q, "%s/shr%d" % (base, next(_uniq)), want_interp=True)
+        if sched is None:
+            if not any(x[0] == route for x in q.get("natural", [])):
+                break
+            best = (q, None)
+            continue
+        if q.get("skip") or route not in q["base"]:
+            break
+        f = fails_under(tools, q, route, sched_neighbourhood(*best[1]), 60)
+        if not f:
+            break
+        best = (q, f[0])
+    return best
+
+
 def smallest_k(tools, p, route, sched, budget_s, est=None):
     """Smallest affordable k (and its first j) below the found one that still fails.  Small k costs the most
     (est = (t0, c): one run at k takes about t0 + c / k seconds), so candidates estimated above the budget are
@@ -955,7 +1018,7 @@ def report_failures(rep, tools, failures, base, tier):
         if key not in best or (f["sched"] or (0, 0)) < (best[key]["sched"] or (0, 0)):
             best[key] = f
     cnt = collections.Counter((f["p"]["name"], f["route"]) for f in failures)
-    groups = sorted(best.values(), key=lambda f: (f["p"]["family"] != "corpus", f["p"]["family"] != "hand",
+    groups = sorted(best.values(), key=lambda f: (f["p"]["family"] != "corpus", f["p"]["family"] not in ("hand", "scale"),
                                                   len(f["p"]["src"])))
     shrunk = 0
     emitted = collections.Counter()      # per (route, natural?) class: at most 4 new violations are written out
@@ -967,8 +1030,25 @@ def report_failures(rep, tools, failures, base, tier):
             suppressed[cls] += 1
             continue
         note = ""
-        if sched is not None and p["family"] in ("hand", "mini") and shrunk < (2 if quick else 6) \
-                and not rep.finding_key_known(key_of(p, route, sched)):
+        if p["family"] == "scale" and shrunk < (2 if quick else 6) \
+                and not rep.finding_key_known(key_of(p, route, sched, f["kind"])):
+            shrunk += 1
+            try:
+                q, s2 = shrink_scale(tools, p, route, sched, base, 30 if quick else 300, F.store_constants(C.SRC))
+                if q is not p:
+                    note = " (shrunk from %s)" % p["name"]
+                    if s2 is None:
+                        nat = [x for x in q["natural"] if x[0] == route][0]
+                        p, sched, f = q, None, dict(f, kind=nat[1], detail=nat[2])
+                    else:
+                        r = tools.run(route, q, sched=s2, timeout=300)
+                        c = classify(r, q["base"][route])
+                        if c:
+                            p, sched, f = q, s2, dict(f, kind=c[0], detail=c[1])
+            except Exception as e:
+                note = " (shrinking failed: %s)" % str(e)[:100]
+        elif sched is not None and p["family"] in ("hand", "mini") and shrunk < (2 if quick else 6) \
+                and not rep.finding_key_known(key_of(p, route, sched, f["kind"])):
             shrunk += 1
             budget = 30 if quick else 600
             try:
@@ -991,7 +1071,16 @@ def report_failures(rep, tools, failures, base, tier):
                          (n, cls[0], "natural schedule" if cls[1] else "forced schedules"))
 
 
-def key_of(p, route, sched):
+def key_of(p, route, sched, kind="fault"):
+    """<route>:<program>:<k:j | natural>, plus the kind of failure when it is not a fault - so that a listed fault does
+    not hide a wrong output of the same program"""
+    k = kind.split(":")[-1]
+    return _key_of(p, route, sched) + ("" if k == "fault" else ":" + k)
+
+
+def _key_of(p, route, sched):
+    if p.get("fault_key"):
+        return p["fault_key"].format(route=route)
     if p.get("key"):
         return p["key"]
     nm = "+".join(sorted(p["shapes"])) + "".join("@" + o for o in p.get("opt", ())) if p["family"] == "hand" else p["name"]
@@ -1012,7 +1101,7 @@ def emit(rep, tools, p, route, sched, kind, detail, note, n_sched):
            "path": p.get("path") if isinstance(p.get("path"), list) else None,
            "baseline_out": p["base"][route]["out"].decode("utf-8", "replace")[:4000] if route in p.get("base", {}) else None,
            "detail": detail}
-    return rep.violation(what, obj, key=key_of(p, route, sched))
+    return rep.violation(what, obj, key=key_of(p, route, sched, kind))
 
 
 def replay(path):
